@@ -5,56 +5,114 @@
 
   * `C01_plumb_merge_eq_single` is proved once, for EVERY well-formed plumbing row (`TE.Plumb.WF`, decidable),
     every carrier satisfying `TE.Plumb.Ops` (exact tensors with + / max / min; `torch.cat` with its
-    associativity along one dimension), every rest-of-compute `g`, and every history of update / merge_state
-    (any list of sources, each with its own history) / reset — no bound on anything.
+    associativity along one dimension; the shape tests of the adoption branch; row-wise accumulation), every
+    rest-of-compute `g`, and every history of update / merge_state (any list of sources, each with its own
+    history) / reset — no bound on anything.  Its two hypotheses on the history are vacuous for the rows of the
+    basic normal form (`C01_plumb_basic_merge_eq_single`):
+      - a row with an ADOPTION branch (MeanSquaredError, R2Score: a 0-dim zero state adopts the first 1-dim
+        summand) needs the live batches to be shape-coherent (`Coh`: one `n_output` per stream) — then the
+        adopting update / merge IS `+` on the carrier (`C01_plumb_adopt_update_is_add`, `…_merge_is_add`);
+      - a row with a DERIVED state (PeakSignalNoiseRatio, auto-range: `data_range = max_target - min_target`)
+        needs at least one live batch: `merge_state([])` on a fresh object recomputes the derived state from the
+        neutral elements (-inf - inf) while a fresh object holds the registered default
+        (`C01_plumb_derived_fresh_witness`); with a batch the derived state is a function of the live batches
+        (`C01_plumb_derived_state`).
   * `C01_plumb_generated_wf` decides that every row generated from the current tree is well-formed, and
     `C01_plumb_coverage` pins the set of classes outside the translator's normal form (those are covered by the
     hand-written models of TE/Model and the correspondence runs only).  A change to a merge_state / update /
     compute body that drops a state from the merge, reads another state of the source, uses another operator
-    than update, concatenates along another dimension than compute, drops the non-empty guard, … changes the
-    generated row and breaks one of the two; the runner then searches for a failing input.
+    than update, concatenates along another dimension than compute, drops the non-empty guard, drops the adoption
+    branch from one of the two methods, stops recomputing a derived state, loops over fewer rows than the state
+    has, … changes the generated row and breaks one of the two; the runner then searches for a failing input.
   * `Throughput` is in the normal form but NOT well-formed by design: update() adds `elapsed_time_sec`,
     merge_state() takes the max over ranks (documented); C01 covers it through TE.Props.C01's own theorem.
 -/
 import TE.Lemmas.Plumb
+import TE.Lemmas.PlumbDemo
 import TE.Gen.Plumbing
 namespace TE.C01
-open TE TE.Plumb
+open TE TE.Plumb TE.Plumb.Demo TE.Agg TE.AggL
 
 /-- **merge = single, for every well-formed plumbing row.** -/
 theorem C01_plumb_merge_eq_single {A C R : Type} (O : Ops A C) (P : ClassPlumb) (g : View A C → Except Err R)
     (hwf : WF P = true) (h : Hist (Contrib A C)) (s s' : St A C)
     (he : eval (plumbImpl O P g) h = .ok s)
+    (hs : eval (plumbImpl O P g) (single (flatten h)) = .ok s')
+    (hc : hasAdopt P.fields = true → Coh O (flatten h))
+    (hd : hasDer P.fields = true → flatten h ≠ []) :
+    view O P.fields s = view O P.fields s' ∧ (plumbImpl O P g).out s = (plumbImpl O P g).out s' := by
+  have hall : P.fields.all (wfField P.fields) = true := by
+    simp only [WF, Bool.and_eq_true] at hwf; exact hwf.2
+  have r := plumb_refines O P g hwf h s he hc
+  have r' := plumb_refines O P g hwf (single (flatten h)) s' hs (by rw [flatten_single]; exact hc)
+  rw [flatten_single] at r'
+  have hv := rel_view O P.fields hall s s' _ r r' hd
+  exact ⟨hv, by simp only [plumbImpl, hv]⟩
+
+/-- the rows of the basic normal form (no adoption branch, no derived state) need no hypothesis on the history. -/
+theorem C01_plumb_basic_merge_eq_single {A C R : Type} (O : Ops A C) (P : ClassPlumb) (g : View A C → Except Err R)
+    (hwf : WF P = true) (hb : Basic P = true) (h : Hist (Contrib A C)) (s s' : St A C)
+    (he : eval (plumbImpl O P g) h = .ok s)
     (hs : eval (plumbImpl O P g) (single (flatten h)) = .ok s') :
     view O P.fields s = view O P.fields s' ∧ (plumbImpl O P g).out s = (plumbImpl O P g).out s' := by
-  have r := plumb_refines O P g hwf h s he
-  have r' := plumb_refines O P g hwf (single (flatten h)) s' hs
-  rw [flatten_single] at r'
-  have hv := rel_view O P.fields s s' _ r r'
-  exact ⟨hv, by simp only [plumbImpl, hv]⟩
+  simp only [Basic, Bool.and_eq_true, Bool.not_eq_true'] at hb
+  exact C01_plumb_merge_eq_single O P g hwf h s s' he hs (by simp [hb.1]) (by simp [hb.2])
 
 /-- the hypotheses of the theorem above are always met: histories of a plumbing row never fail
     (validation failures happen before any mutation and are C14's subject). -/
 theorem C01_plumb_total {A C R : Type} (O : Ops A C) (P : ClassPlumb) (g : View A C → Except Err R)
     (h : Hist (Contrib A C)) : ∃ s, eval (plumbImpl O P g) h = .ok s := plumb_total O P g h
 
-/-- the numeric states of every reachable object are the fold of the contributions of the live batches, the
+/-- the accumulated states of every reachable object are the fold of the contributions of the live batches, the
     list states concatenate (along the class's dimension) to the concatenation of the live chunks. -/
 theorem C01_plumb_state {A C R : Type} (O : Ops A C) (P : ClassPlumb) (g : View A C → Except Err R)
-    (hwf : WF P = true) (h : Hist (Contrib A C)) (s : St A C) (he : eval (plumbImpl O P g) h = .ok s) :
+    (hwf : WF P = true) (h : Hist (Contrib A C)) (s : St A C) (he : eval (plumbImpl O P g) h = .ok s)
+    (hc : hasAdopt P.fields = true → Coh O (flatten h)) :
     (∀ f u m src, numOf P.fields f = some (u, m, src) →
         s.num f = (flatten h).foldl (fun a b => O.op u a (b.num f)) (O.unit u)) ∧
     (∀ f, isLst P.fields f = true →
         O.cat (dimOf P.fields f) (s.lst f) = O.cat (dimOf P.fields f) ((flatten h).map (·.lst f)) ∧
         (s.lst f = [] ↔ flatten h = [])) := by
-  have r := plumb_refines O P g hwf h s he
+  have r := plumb_refines O P g hwf h s he hc
   refine ⟨fun f u m src hf => ?_, fun f hf => ?_⟩
-  · have := r.1 f
+  · have := r.1.1 f (effDer_of_num (by simp [isNum, hf]))
     simpa only [canon, hf] using this
-  · have := r.2 f
+  · have := r.1.2 f
     obtain ⟨x, hx⟩ := Option.isSome_iff_exists.mp hf
     simp only [canon, hx] at this
-    exact ⟨this.cat_eq, rel_lst_empty O P.fields s _ r f hf⟩
+    exact ⟨this.cat_eq, rel_lst_empty O P.fields s _ r.1 f hf⟩
+
+/-- **a derived state is a function of the live batches, for every history with a live batch**:
+    `data_range` is `max − min` of the folds of the batches' extremes, whatever the order of updates and merges
+    (a merge_state that leaves `min_target` / `max_target` stale — seeded change C01-e — has no well-formed row). -/
+theorem C01_plumb_derived_state {A C R : Type} (O : Ops A C) (P : ClassPlumb) (g : View A C → Except Err R)
+    (hwf : WF P = true) (h : Hist (Contrib A C)) (s : St A C) (he : eval (plumbImpl O P g) h = .ok s)
+    (hc : hasAdopt P.fields = true → Coh O (flatten h)) (hne : flatten h ≠ [])
+    (d a b : String) (iu im ae : Bool) (hd : effDer P.fields d = some (a, b, iu, im, ae))
+    (ua ma ub mb : NOp) (sa sb : String)
+    (ha : numOf P.fields a = some (ua, ma, sa)) (hb : numOf P.fields b = some (ub, mb, sb)) :
+    s.num d = O.sub ((flatten h).foldl (fun x c => O.op ua x (c.num a)) (O.unit ua))
+                    ((flatten h).foldl (fun x c => O.op ub x (c.num b)) (O.unit ub)) := by
+  have r := plumb_refines O P g hwf h s he hc
+  have st := (C01_plumb_state O P g hwf h s he hc).1
+  rw [r.2 d a b iu im ae hd hne, st a ua ma sa ha, st b ub mb sb hb]
+
+/-- **the adopting update is `+`**: on an object that represents shape-coherent batches, update() with the
+    scalar→vector adoption branch computes exactly `state + summand` for every accumulated state. -/
+theorem C01_plumb_adopt_update_is_add {A C : Type} (O : Ops A C) (fs : List FieldPlumb)
+    (hwf : fs.all (wfField fs) = true) (s : St A C) (l : List (Contrib A C)) (b : Contrib A C)
+    (h : Rel O fs s l) (hc : Coh O (l ++ [b])) (f : String) (u m : NOp) (src : String)
+    (hf : numOf fs f = some (u, m, src)) :
+    updNum O fs s b f = O.op u (s.num f) (b.num f) := by
+  rw [updNum_eq O fs hwf s l b h.1 (fun _ => hc) f, hf]
+
+/-- **the adopting merge is `+`** (the repo's fix 44b073f gave merge_state the branch update had). -/
+theorem C01_plumb_adopt_merge_is_add {A C : Type} (O : Ops A C) (fs : List FieldPlumb)
+    (hwf : fs.all (wfField fs) = true) (s t : St A C) (l lt : List (Contrib A C))
+    (h : Rel O fs s l) (ht : Rel O fs t lt) (hc : Coh O (l ++ lt)) (f : String) (u m : NOp) (src : String)
+    (hf : numOf fs f = some (u, m, src)) :
+    mrgNum O fs s t f = O.op m (s.num f) (t.num src) := by
+  rw [mrgNum_eq O fs hwf s t l lt h.1 ht.1 (fun _ => hc) f, hf]
 
 /-- classes whose merge deliberately differs from their update (documented semantics). -/
 def designedExceptions : List String := ["Throughput"]
@@ -67,10 +125,139 @@ theorem C01_plumb_generated_wf :
 /-- the classes outside the translator's normal form (hand-written models + correspondence only). -/
 theorem C01_plumb_coverage :
     (Gen.classPlumb.filter (·.unsupported.isSome)).map (·.name) =
-      ["BinaryBinnedAUPRC", "Cat", "AUC", "Covariance", "MeanSquaredError", "R2Score", "RetrievalPrecision",
-       "RetrievalRecall", "PeakSignalNoiseRatio", "FrechetAudioDistance", "WindowedClickThroughRate",
-       "WindowedWeightedCalibration", "WindowedBinaryNormalizedEntropy", "WindowedMeanSquaredError",
-       "WindowedBinaryAUROC"] := by
+      ["WindowedClickThroughRate", "WindowedWeightedCalibration", "WindowedBinaryNormalizedEntropy",
+       "WindowedMeanSquaredError", "WindowedBinaryAUROC"] := by
+  decide +kernel
+
+/-- the rows outside the BASIC normal form (their merge = single theorem carries a hypothesis on the history). -/
+theorem C01_plumb_nonbasic :
+    (Gen.classPlumb.filter (fun P => P.unsupported.isNone && !Basic P)).map (fun P => (P.name, P.mode)) =
+      [("MeanSquaredError", ""), ("R2Score", ""), ("PeakSignalNoiseRatio", "self.auto_range")] := by
+  decide +kernel
+
+/-- the rows whose meaning is the joint-accumulator machine `welfordImpl` (theorems below), with their facts. -/
+theorem C01_plumb_welford_rows :
+    (Gen.classPlumb.filter isWelford).map (fun P => (P.name, P.fields)) =
+      [("Covariance", [.welford "n" "sum" "ss_sum" true true true])] := by
+  decide +kernel
+
+/-- **merge = single for a joint accumulator**, for every representation relation the combine respects and that
+    determines what compute() returns. -/
+theorem C01_plumb_welford_merge_eq_single {B J R : Type} (W : JOps J) (stat : B → J) (g : J → Except Err R)
+    (Rep : J → List B → Prop) (h0 : Rep W.e [])
+    (hu : ∀ s l b, Rep s l → Rep (W.comb s (stat b)) (l ++ [b]))
+    (hm : ∀ s l t lt, Rep s l → Rep t lt → Rep (W.comb s t) (l ++ lt))
+    (hg : ∀ s s' l, Rep s l → Rep s' l → g s = g s')
+    (h : Hist B) (s s' : J)
+    (he : eval (welfordImpl W stat g) h = .ok s)
+    (hs : eval (welfordImpl W stat g) (single (flatten h)) = .ok s') :
+    (welfordImpl W stat g).out s = (welfordImpl W stat g).out s' := by
+  have r := welford_refines W stat g Rep h0 hu hm h s he
+  have r' := welford_refines W stat g Rep h0 hu hm (single (flatten h)) s' hs
+  rw [flatten_single] at r'
+  exact hg s s' _ r r'
+
+/-- the combine of `Covariance` with its neutral element. -/
+def covW : JOps CovS := ⟨covCombine, covInit⟩
+
+/-- **the meaning of the `welford` row of Covariance IS the hand-written class model** `TE.Agg.covImpl` (so
+    `C07.chan_combine`, `C07.cov_merge_tree`, `C07.cov_eq_spec` are about the plumbing read off the source). -/
+theorem C01_plumb_welford_cov :
+    welfordImpl covW (fun b : Nat × Mat => covBatch b.1 b.2) covCompute = covImpl := rfl
+
+/-- every reachable Covariance state is the summary `(n, Σx, M2)` of the live observations, whatever the tree of
+    updates and merges (instance of the theorem above with the representation `CovR`, Chan combine identity). -/
+theorem C01_plumb_welford_cov_state (d : Nat) (h : Hist (Nat × Mat)) (s : CovS)
+    (he : eval (welfordImpl covW (fun b : Nat × Mat => covBatch b.1 b.2) covCompute) h = .ok s)
+    (hd : ∀ b ∈ flatten h, b.1 = d) : CovRep d s (rowsOf (flatten h)) := by
+  refine welford_refines covW _ covCompute (CovR d) (fun _ => Or.inl ⟨rfl, rfl⟩) ?_ ?_ h s he hd
+  · intro s l b hs hall
+    rw [rowsOf_append]
+    have hb : b.1 = d := hall b (by simp)
+    have : rowsOf [b] = b.2 := by simp [rowsOf]
+    rw [this]
+    simp only [covW, hb]
+    exact covRep_update d b.2 (hs fun b' hb' => hall b' (List.mem_append_left _ hb'))
+  · intro s l t lt hs ht hall
+    rw [rowsOf_append]
+    exact covRep_combine d (hs fun b hb => hall b (List.mem_append_left _ hb))
+      (ht fun b hb => hall b (List.mem_append_right _ hb))
+
+/-- the rows whose meaning is the per-query retained-list machine `topkImpl`: the code AS IT IS — update() prunes
+    to the top k, merge_state() only concatenates. -/
+theorem C01_plumb_topk_rows :
+    (Gen.classPlumb.filter isTopk).map (fun P => (P.name, P.fields)) =
+      [("RetrievalPrecision", [.topk "topk" "target" "self.k" "self.num_queries" "self.num_queries" true false]),
+       ("RetrievalRecall", [.topk "topk" "target" "self.k" "self.num_queries" "self.num_queries" true false])] := by
+  decide +kernel
+
+/-- every reachable state of a `topk` row holds, per query, what the live batches of that query give — up to what
+    compute() depends on, and PROVIDED the selection is neutral for it (`k = None`: the selection is a sort and
+    compute() depends on the multiset of pairs).  For an integer `k` the hypothesis fails and so does the conclusion
+    (`C01_plumb_topk_pruned_witness`; recorded findings C01|RetrievalRecall|k=int, C01|RetrievalPrecision|…). -/
+theorem C01_plumb_topk_state {Cq M R : Type} (T : TOps Cq M) (P : ClassPlumb) (g : (Nat → Cq) → Except Err R)
+    (hsel : SelNeutral T) (h : Hist (Nat → Option Cq)) (s : Nat → Cq) (he : eval (topkImpl T P g) h = .ok s) (i : Nat) :
+    T.obs (s i) = T.obs (liveQ T (flatten h) i) :=
+  topk_refines T P g hsel h s he i
+
+/-- **merge = single for the retrieval classes when the selection is neutral (`k = None`)**, for every compute()
+    that depends on the per-query observations only. -/
+theorem C01_plumb_topk_merge_eq_single {Cq M R : Type} (T : TOps Cq M) (P : ClassPlumb) (g : (Nat → Cq) → Except Err R)
+    (hsel : SelNeutral T) (hg : ∀ s s' : Nat → Cq, (∀ i, T.obs (s i) = T.obs (s' i)) → g s = g s')
+    (h : Hist (Nat → Option Cq)) (s s' : Nat → Cq)
+    (he : eval (topkImpl T P g) h = .ok s)
+    (hs : eval (topkImpl T P g) (single (flatten h)) = .ok s') :
+    (topkImpl T P g).out s = (topkImpl T P g).out s' := by
+  have r := topk_refines T P g hsel h s he
+  have r' := topk_refines T P g hsel (single (flatten h)) s' hs
+  rw [flatten_single] at r'
+  exact hg s s' fun i => (r i).trans (r' i).symm
+
+/-- the retained scores of a query as a list; the selection keeps the best one (`k = 1`); compute() sees the list. -/
+def top1Ops : TOps (List Nat) (List Nat) where
+  cat2 := (· ++ ·)
+  empty := []
+  sel := fun l => match l.max? with | some m => [m] | none => []
+  obs := id
+  assoc := List.append_assoc
+  empty_left := List.nil_append
+  empty_right := List.append_nil
+  obs_cat := by intro a a' b b' h h'; simp only [id] at h h'; rw [h, h']
+
+/-- a neutral selection that is not the identity: the selection reverses, compute() sees length and sum. -/
+def revOps : TOps (List Nat) (Nat × Nat) where
+  cat2 := (· ++ ·)
+  empty := []
+  sel := List.reverse
+  obs := fun l => (l.length, l.sum)
+  assoc := List.append_assoc
+  empty_left := List.nil_append
+  empty_right := List.append_nil
+  obs_cat := by
+    intro a a' b b' h h'
+    simp only [Prod.mk.injEq] at h h'
+    simp [h.1, h.2, h'.1, h'.2]
+
+def topkRow : ClassPlumb := ⟨"topk", [.topk "topk" "target" "self.k" "self.num_queries" "self.num_queries" true false], none, ""⟩
+
+example : WF topkRow = true ∧ topkFlags topkRow.fields = (true, false) := by decide
+example : SelNeutral revOps := by intro c; simp [revOps]
+example : WF ⟨"x", [.topk "topk" "target" "self.k" "self.num_queries - 1" "self.num_queries" true false], none, ""⟩ = false := by decide
+
+/-- **the code as it is, with an integer k**: shard A saw a query's score 3, shard B its score 5; A.merge_state([B])
+    retains both, a single instance fed both batches retains the best one only — the same live batches, different
+    retained lists (what RetrievalRecall's denominator and RetrievalPrecision's empty-target test read). -/
+theorem C01_plumb_topk_pruned_witness :
+    (match eval (topkImpl top1Ops topkRow (fun s => .ok (s 0)))
+        (.merge (.update .fresh (fun _ => some [3])) [.update .fresh (fun _ => some [5])]) with
+      | .ok s => s 0 | .error _ => []) = [3, 5] ∧
+    (match eval (topkImpl top1Ops topkRow (fun s => .ok (s 0)))
+        (single [fun _ => some [3], fun _ => some [5]]) with
+      | .ok s => s 0 | .error _ => []) = [5] ∧
+    ¬ SelNeutral top1Ops := by
+  refine ⟨by decide +kernel, by decide +kernel, fun h => ?_⟩
+  have := h [3, 5]
+  revert this
   decide +kernel
 
 /-- the designed exception is exactly the add-vs-max of Throughput's elapsed time. -/
@@ -81,42 +268,15 @@ theorem C01_plumb_throughput :
 
 /-- corollary for the generated table: every class in normal form (but Throughput) satisfies merge = single. -/
 theorem C01_plumb_generated_merge_eq_single {A C R : Type} (O : Ops A C) (g : View A C → Except Err R) :
-    ∀ P ∈ Gen.classPlumb, P.unsupported = none → P.name ∉ designedExceptions →
+    ∀ P ∈ Gen.classPlumb, P.unsupported = none → P.name ∉ designedExceptions → isWelford P = false → isTopk P = false →
       ∀ (h : Hist (Contrib A C)) (s s' : St A C), eval (plumbImpl O P g) h = .ok s →
         eval (plumbImpl O P g) (single (flatten h)) = .ok s' →
+        (hasAdopt P.fields = true → Coh O (flatten h)) → (hasDer P.fields = true → flatten h ≠ []) →
         (plumbImpl O P g).out s = (plumbImpl O P g).out s' :=
-  fun P hP hu hn h s s' he hs =>
-    (C01_plumb_merge_eq_single O P g (C01_plumb_generated_wf P hP hu hn) h s s' he hs).2
+  fun P hP hu hn _ _ h s s' he hs hc hd =>
+    (C01_plumb_merge_eq_single O P g (C01_plumb_generated_wf P hP hu hn) h s s' he hs hc hd).2
 
 /-! ### non-vacuity -/
-
-/-- a carrier satisfying the laws: naturals with a top element (`none` = +inf) — `+` and `max` have unit 0
-    and absorb +inf, `min` has unit +inf; chunks are lists, `cat` flattens (along whatever dimension). -/
-def natOp : NOp → Option Nat → Option Nat → Option Nat
-  | .add, some a, some b => some (a + b)
-  | .add, _, _ => none
-  | .max, some a, some b => some (Nat.max a b)
-  | .max, _, _ => none
-  | .min, some a, some b => some (Nat.min a b)
-  | .min, some a, none => some a
-  | .min, none, b => b
-
-def natOps : Ops (Option Nat) (List Nat) where
-  op := natOp
-  unit := fun | .add => some 0 | .max => some 0 | .min => none
-  cat := fun _ l => l.flatten
-  assoc := by
-    intro o a b c
-    cases o <;> cases a <;> cases b <;> cases c <;> simp [natOp, Nat.add_assoc, Nat.max_assoc, Nat.min_assoc]
-  comm := by
-    intro o a b
-    cases o <;> cases a <;> cases b <;> simp [natOp, Nat.add_comm, Nat.max_comm, Nat.min_comm]
-  unit_left := by
-    intro o a
-    cases o <;> cases a <;> simp [natOp]
-  cat_flat := by
-    intro d xs ys zs _
-    simp
 
 /-- a well-formed generated row exists for both kinds, and a merge history on it really exercises the merge
     branch (the sources are non-empty). -/
@@ -124,7 +284,7 @@ example : ∃ P ∈ Gen.classPlumb, P.name = "BinaryAUROC" ∧ WF P = true ∧ P
 example : ∃ P ∈ Gen.classPlumb, P.name = "MulticlassF1Score" ∧ WF P = true ∧ P.fields.length = 3 := by decide +kernel
 example : (Gen.classPlumb.filter (fun P => WF P)).length ≥ 40 := by decide +kernel
 
-def demoRow : ClassPlumb := ⟨"demo", [.num "n" .add .add "n" true, .lst "xs" "xs" "xs" 0 [0] 0], none⟩
+def demoRow : ClassPlumb := ⟨"demo", [.num "n" .add .add "n" true, .lst "xs" "xs" "xs" (.lit 0) [.lit 0] 0], none, ""⟩
 def demoB (k : Nat) : Contrib (Option Nat) (List Nat) := ⟨fun _ => some k, fun _ => [k, k + 1]⟩
 def demoHist : Hist (Contrib (Option Nat) (List Nat)) :=
   .merge (.update .fresh (demoB 1)) [.update (.update .fresh (demoB 2)) (demoB 3), .fresh, .update .fresh (demoB 4)]
@@ -136,10 +296,100 @@ example : (match eval (plumbImpl natOps demoRow (fun v => .ok (v.num "n", v.cat 
 example : flatten demoHist = [demoB 1, demoB 2, demoB 3, demoB 4] := rfl
 
 /-- the well-formedness predicate is not vacuous: it rejects the typical slips. -/
-example : WF ⟨"x", [.num "a" .add .add "b" true, .num "b" .add .add "b" true], none⟩ = false := by decide  -- reads another state
-example : WF ⟨"x", [.num "a" .add .max "a" true], none⟩ = false := by decide                               -- other operator
-example : WF ⟨"x", [.lst "a" "a" "a" 0 [1] 0], none⟩ = false := by decide                                   -- compute cats along another dim
-example : WF ⟨"x", [.lst "a" "a" "" 0 [0] 0], none⟩ = false := by decide                                    -- unguarded append of cat([])
-example : WF ⟨"x", [.lst "a" "a" "a" 0 [0] 1], none⟩ = false := by decide                                   -- compute reads the chunk list itself
+example : WF ⟨"x", [.num "a" .add .add "b" true, .num "b" .add .add "b" true], none, ""⟩ = false := by decide  -- reads another state
+example : WF ⟨"x", [.num "a" .add .max "a" true], none, ""⟩ = false := by decide                               -- other operator
+example : WF ⟨"x", [.lst "a" "a" "a" (.lit 0) [.lit 1] 0], none, ""⟩ = false := by decide                       -- compute cats along another dim
+example : WF ⟨"x", [.lst "a" "a" "" (.lit 0) [.lit 0] 0], none, ""⟩ = false := by decide                        -- unguarded append of cat([])
+example : WF ⟨"x", [.lst "a" "a" "a" (.lit 0) [.lit 0] 1], none, ""⟩ = false := by decide                       -- compute reads the chunk list itself
+example : WF ⟨"x", [.num "a" .add .add "a" true, .adopt "a" "a" ""], none, ""⟩ = false := by decide             -- merge_state lacks the adoption branch
+example : WF ⟨"x", [.num "a" .add .add "a" true, .num "w" .add .add "w" true, .adopt "a" "a" "w"], none, ""⟩ = false := by decide  -- other guard
+example : WF ⟨"x", [.num "a" .add .add "a" true, .task "a" "self.num_tasks - 1" "self.num_tasks"], none, ""⟩ = false := by decide  -- loop misses a row
+example : WF ⟨"x", [.num "hi" .max .max "hi" true, .num "lo" .min .min "lo" true, .der "r" "hi" "lo" true false true], none, ""⟩ = false := by decide  -- merge leaves the derived state stale
+example : WF ⟨"x", [.num "hi" .max .max "hi" true, .der "r" "hi" "lo" true true true], none, ""⟩ = false := by decide   -- derived from a state that is not merged
+
+example : WF ⟨"x", [.lst "a" "a" "a" (.lit 0) [.lit 0] 0, .cmp "a" ["a"] (.lit 1)], none, ""⟩ = false := by decide      -- merge compacts along another dim
+example : WF ⟨"x", [.lst "a" "a" "a" (.lit 0) [.lit 0] 0, .cmp "a" [] (.lit 0)], none, ""⟩ = false := by decide         -- unguarded compaction: cat([])
+example : WF ⟨"x", [.num "dim" .add .add "dim" true, .lst "a" "a" "a" (.st "dim") [.st "dim"] 0], none, ""⟩ = false := by decide  -- cat along a state that is written
+example : WF ⟨"x", [.const "d", .const "e", .lst "a" "a" "a" (.st "d") [.st "e"] 0], none, ""⟩ = false := by decide     -- merge / compute read different states
+
+/-! #### the adoption branch, the derived state, the row loop and the compaction are exercised -/
+
+/-- AUC's shape: merge_state first compacts the object's own chunk lists, then appends the sources'. -/
+def cmpRow : ClassPlumb :=
+  ⟨"cmp", [.lst "x" "x" "x" (.lit 1) [.lit 1] 0, .cmp "x" ["x", "y"] (.lit 1),
+           .lst "y" "y" "x" (.lit 1) [.lit 1] 0, .cmp "y" ["x", "y"] (.lit 1)], none, ""⟩
+example : WF cmpRow = true := by decide
+example : (match eval (plumbImpl natOps cmpRow (fun v => .ok (v.cat "x", v.cat "y")))
+      (.merge (.update (.update .fresh (demoB 1)) (demoB 5)) [.update (.update .fresh (demoB 2)) (demoB 3), .fresh]) with
+    | .ok s => (s.lst "x", natOps.cat (.lit 1) (s.lst "y")) | .error _ => ([], [])) =
+    ([[1, 2, 5, 6], [2, 3, 3, 4]], [1, 2, 5, 6, 2, 3, 3, 4]) := by decide +kernel
+
+/-- a joint accumulator whose combine is not commutative (append): the merge order is the order of the batches. -/
+example : (match eval (welfordImpl ⟨fun a b => a ++ b, ([] : List Nat)⟩ (fun k : Nat => [k, k]) (fun s => Except.ok s))
+      (.merge (.update .fresh 1) [.update (.update .fresh 2) 3, .fresh]) with
+    | .ok s => s | .error _ => []) = [1, 1, 2, 2, 3, 3] := by decide
+example : (match eval covImpl (.merge (.update .fresh (1, [[1], [3]])) [.update .fresh (1, [[5]])]) with
+    | .ok s => s | .error _ => covInit) = ⟨3, [9], [[8]]⟩ := by
+  decide +kernel
+example : WF ⟨"x", [.welford "n" "sum" "ss" true false true], none, ""⟩ = false := by decide   -- merge passes the states in other positions
+example : WF ⟨"x", [.welford "n" "sum" "ss" true true false], none, ""⟩ = false := by decide   -- the combine is not the Chan combine
+
+/-- Cat's shape: the dimension is a constant state of the object. -/
+example : ∃ P ∈ Gen.classPlumb, P.name = "Cat" ∧ WF P = true ∧ dimOf P.fields "inputs" = .st "dim" := by decide +kernel
+
+def adoptRow : ClassPlumb :=
+  ⟨"adopt", [.num "sse" .add .add "sse" true, .num "w" .add .add "w" true, .adopt "sse" "sse" "sse"], none, ""⟩
+/-- batches whose `sse` contribution is never the "0-dim" zero. -/
+def adoptB (k : Nat) : Contrib (Option Nat) (List Nat) := ⟨fun f => if f = "sse" then some (k + 1) else some k, fun _ => []⟩
+def adoptHist : Hist (Contrib (Option Nat) (List Nat)) :=
+  .merge .fresh [.update (.update .fresh (adoptB 2)) (adoptB 3), .fresh, .update .fresh (adoptB 4)]
+
+example : WF adoptRow = true ∧ hasAdopt adoptRow.fields = true := by decide
+example : Coh natOps (flatten adoptHist) := by
+  have key : ∀ b ∈ flatten adoptHist, ∀ G, natOps.scalar (b.num G) = false := by
+    intro b hb G
+    have : b = adoptB 2 ∨ b = adoptB 3 ∨ b = adoptB 4 := by simpa [adoptHist, flatten, flattenList] using hb
+    rcases this with rfl | rfl | rfl <;> simp only [adoptB] <;> split <;> decide
+  intro b hb b' hb' G
+  rw [key b hb, key b' hb']
+/-- the first merge step really takes the adoption branch (the target is fresh, the source holds a "vector"). -/
+example : natOps.scalar ((initSt natOps adoptRow.fields).num "sse") = true ∧ natOps.vec ((adoptB 2).num "sse") = true := by
+  decide
+example : (match eval (plumbImpl natOps adoptRow (fun v => .ok (v.num "sse", v.num "w"))) adoptHist with
+    | .ok s => (s.num "sse", s.num "w") | .error _ => (none, none)) = (some 12, some 9) := by decide +kernel
+
+def derRow : ClassPlumb :=
+  ⟨"der", [.num "hi" .max .max "hi" true, .num "lo" .min .min "lo" true, .der "range" "hi" "lo" true true true], none,
+   "self.auto_range"⟩
+def derB (lo hi : Nat) : Contrib (Option Nat) (List Nat) := ⟨fun f => if f = "hi" then some hi else some lo, fun _ => []⟩
+def derHist : Hist (Contrib (Option Nat) (List Nat)) :=
+  .update (.merge (.update .fresh (derB 4 6)) [.update .fresh (derB 1 5), .update .fresh (derB 3 9)]) (derB 2 7)
+
+example : WF derRow = true ∧ hasDer derRow.fields = true := by decide
+example : flatten derHist ≠ [] := by simp [derHist, flatten, flattenList]
+example : (match eval (plumbImpl natOps derRow (fun v => .ok (v.num "range"))) derHist with
+    | .ok s => (s.num "hi", s.num "lo", s.num "range") | .error _ => (none, none, none)) = (some 9, some 1, some 8) := by
+  decide +kernel
+
+/-- **why the derived-state theorem needs a live batch**: `merge_state([])` on a fresh object recomputes the
+    derived state from the neutral elements, a fresh object holds the registered default — same (empty) live
+    batches, different state.  (PeakSignalNoiseRatio: `data_range` becomes `-inf` instead of `0.`; compute() is
+    `nan` in both cases because there is no observation.) -/
+theorem C01_plumb_derived_fresh_witness :
+    (match eval (plumbImpl natOps derRow (fun v => .ok (v.num "range"))) (.merge .fresh []) with
+      | .ok s => s.num "range" | .error _ => some 0) = none ∧
+    (match eval (plumbImpl natOps derRow (fun v => .ok (v.num "range"))) .fresh with
+      | .ok s => s.num "range" | .error _ => none) = some 0 ∧
+    flatten (.merge .fresh [] : Hist (Contrib (Option Nat) (List Nat))) = flatten .fresh :=
+  ⟨by decide +kernel, by decide +kernel, rfl⟩
+
+def taskRow : ClassPlumb :=
+  ⟨"task", [.num "tp" .add .add "tp" true, .task "tp" "self.num_tasks" "self.num_tasks"], none, ""⟩
+def taskB (k : Nat) : Contrib (Option Nat × Option Nat) (List Nat) := ⟨fun _ => (some k, some (10 * k)), fun _ => []⟩
+
+example : WF taskRow = true ∧ isTask taskRow.fields "tp" = true := by decide
+example : (match eval (plumbImpl pairOps taskRow (fun v => .ok (v.num "tp")))
+      (.merge (.update .fresh (taskB 1)) [.update (.update .fresh (taskB 2)) (taskB 3)]) with
+    | .ok s => s.num "tp" | .error _ => (none, none)) = (some 6, some 60) := by decide +kernel
 
 end TE.C01
